@@ -1,4 +1,5 @@
-(* C12 — tie (part 3: blocks of `_info_and_validate`) between the Python text of `_load_ref` / `_write_hyp` (src/pydrobert/torch/_datasets.py) and
+(* C12 — tie (part 3a: tactics and small facts shared by the files about the blocks of `_info_and_validate`;
+   the [Arguments] directives are local and repeated at the top of each of those files) between the Python text of `_load_ref` / `_write_hyp` (src/pydrobert/torch/_datasets.py) and
    PV.C12.Model.load_ref / write_hyp, checked by the kernel.  PV.Gen.C12ValSrc.load_ref_body / write_hyp_body are the
    MiniPy terms harness/py2coq/translate.py regenerates from /repo on every run; PV.MiniPy.Interp is their
    semantics; the torch calls mean what PV.MiniTorch.OpsC12 says (through SrcRun.ext12).  If the source is edited
@@ -35,6 +36,12 @@ Local Open Scope string_scope.
 #[local] Arguments exec : simpl never.
 #[local] Arguments for_loop : simpl never.
 #[local] Arguments q_cmp : simpl never.
+#[local] Arguments fill_slice : simpl never.
+#[local] Arguments set_row : simpl never.
+#[local] Arguments rows_of : simpl never.
+#[local] Arguments tolist2 : simpl never.
+#[local] Arguments full_long : simpl never.
+#[local] Arguments row3 : simpl never.
 #[local] Arguments inject_Z : simpl never.
 #[local] Arguments firstn : simpl never.
 #[local] Arguments skipn : simpl never.
@@ -42,6 +49,7 @@ Local Open Scope string_scope.
 #[local] Arguments Z.of_nat : simpl never.
 #[local] Arguments torch_module : simpl never.
 #[local] Arguments store : simpl never.
+#[local] Arguments set_var x v !st /.
 #[local] Arguments ext12 env f !args kw st /.
 #[local] Arguments bind {A B} !o f /.
 #[local] Arguments Z.add : simpl never.
@@ -59,6 +67,37 @@ Lemma t_shape_T1 : forall cu dt l, t_shape (T1 cu dt l) = [List.length l]. Proof
 Lemma t_shape_T2 : forall cu dt w r, t_shape (T2 cu dt w r) = [List.length r; w]. Proof. reflexivity. Qed.
 Lemma leb_0_of_nat : forall n, (0 <=? Z.of_nat n)%Z = true. Proof. intros. lia. Qed.
 
+(* the list of utterance ids, kept folded; indexing it *)
+Definition ids_val (ids : list string) : val := VList (map VStr ids).
+#[local] Arguments ids_val : simpl never.
+#[local] Arguments subscript !o !k st /.
+
+Lemma subscript_ids : forall ids i id st, nth_error ids i = Some id ->
+  subscript (ids_val ids) (VInt (Z.of_nat i)) st = Ok (VStr id) st.
+Proof.
+  intros ids i id st H. unfold subscript, ids_val.
+  assert (Hi : (i < List.length ids)%nat) by (apply nth_error_Some; congruence).
+  rewrite map_length. replace (Z.of_nat i <? 0)%Z with false by lia.
+  replace ((0 <=? Z.of_nat i)%Z && (Z.of_nat i <? Z.of_nat (List.length ids))%Z)%bool with true by lia.
+  rewrite Nat2Z.id. f_equal. rewrite (nth_indep _ VNone (VStr id)) by (rewrite map_length; exact Hi).
+  rewrite map_nth. f_equal. now apply nth_error_nth.
+Qed.
+
+Lemma env_get : forall c d dsv i u st, nth_error d i = Some u ->
+  env_ds c d "$method.get_utterance_tuple" [dsv; VInt (Z.of_nat i)] [] st = utt_tuple c u st.
+Proof.
+  intros c d dsv i u st H. unfold env_ds. cbn [is String.eqb Ascii.eqb Bool.eqb].
+  replace (Z.of_nat i <? 0)%Z with false by lia. now rewrite Nat2Z.id, H.
+Qed.
+#[local] Arguments utt_tuple : simpl never.
+#[local] Arguments env_ds : simpl never.
+
+Lemma env_join : forall c d a b st, env_ds c d "os.path.join" [VStr a; VStr b] [] st = Ok (VStr (a ++ "/" ++ b)) st.
+Proof. reflexivity. Qed.
+Lemma method_ds_get : forall ids args, method (ds_obj ids) "get_utterance_tuple" args = None.
+Proof. reflexivity. Qed.
+Lemma ndim_mkT : forall cu dt sh da, ndim (mkT cu dt sh da) = List.length sh. Proof. reflexivity. Qed.
+
 Section Attr.
   Variable ext : string -> list val -> list (string * val) -> state -> outcome val.
   Lemma attr_ds_data_dir : forall ids st, attribute ext (ds_obj ids) "data_dir" st = Ok (VStr "d") st. Proof. reflexivity. Qed.
@@ -67,7 +106,7 @@ Section Attr.
   Lemma attr_ds_ref : forall ids st, attribute ext (ds_obj ids) "ref_subdir" st = Ok (VStr "ref") st. Proof. reflexivity. Qed.
   Lemma attr_ds_prefix : forall ids st, attribute ext (ds_obj ids) "file_prefix" st = Ok (VStr "") st. Proof. reflexivity. Qed.
   Lemma attr_ds_suffix : forall ids st, attribute ext (ds_obj ids) "file_suffix" st = Ok (VStr ".pt") st. Proof. reflexivity. Qed.
-  Lemma attr_ds_ids : forall ids st, attribute ext (ds_obj ids) "utt_ids" st = Ok (VList (map VStr ids)) st. Proof. reflexivity. Qed.
+  Lemma attr_ds_ids : forall ids st, attribute ext (ds_obj ids) "utt_ids" st = Ok (ids_val ids) st. Proof. reflexivity. Qed.
   Lemma attr_torch_Tensor : forall st, attribute ext torch_module "Tensor" st = Ok (class_token "Tensor") st. Proof. reflexivity. Qed.
   Lemma attr_torch_Long : forall st, attribute ext torch_module "LongTensor" st = Ok (class_token "LongTensor") st. Proof. reflexivity. Qed.
   Lemma attr_torch_Byte : forall st, attribute ext torch_module "ByteTensor" st = Ok (class_token "ByteTensor") st. Proof. reflexivity. Qed.
@@ -130,6 +169,13 @@ Ltac fix_head X :=
   | lazymatch X with context [attribute _ torch_module "ShortTensor" _] => rewrite attr_torch_Short end
   | lazymatch X with context [attribute _ torch_module "IntTensor" _] => rewrite attr_torch_Int end
   | lazymatch X with context [attribute _ torch_module "long" _] => rewrite attr_torch_long end
+  | lazymatch X with context [subscript (ids_val _) (VInt (Z.of_nat _)) _] => erewrite subscript_ids by eassumption end
+  | lazymatch X with context [env_ds _ _ "$method.get_utterance_tuple" [_; VInt (Z.of_nat _)] [] _] => erewrite env_get by eassumption end
+  | lazymatch X with context [env_ds _ _ "os.path.join" [VStr _; VStr _] [] _] => rewrite env_join end
+  | lazymatch X with context [method (ds_obj _) "get_utterance_tuple" _] => rewrite method_ds_get end
+  | lazymatch X with context [String.eqb (dtype_name _) (dtype_name _)] => rewrite !dtype_name_eqb end
+  | lazymatch X with context [ndim (mkT _ _ _ _)] => rewrite !ndim_mkT end
+  | lazymatch X with context [(Z.of_nat (S (S (S _))) =? 2)%Z] => rewrite !of_nat_SSS_eqb_2 end
   | lazymatch X with context [foreign (enc12 _)] => rewrite !foreign_enc12 end
   | lazymatch X with context [subscript (enc12 _) (VInt _) _] => rewrite subscript_enc12_int end
   | lazymatch X with context [subscript (enc12 _) (VTuple _) _] => rewrite subscript_enc12_tuple end
@@ -139,6 +185,8 @@ Ltac fix_head X :=
   | lazymatch X with context [isinstance12 _ (class_token "LongTensor")] => rewrite isinstance_Long end
   | lazymatch X with context [isinstance12 _ (VTuple _)] => rewrite isinstance_small end
   | lazymatch X with context [store _ (EName _) _ _] => rewrite store_name end
+  | lazymatch X with context [store _ (ESub (EName _) _) _ _] => erewrite store_sub_enc12 by (cbn; reflexivity) end
+  | lazymatch X with context [set_row (T2 _ _ _ _) (Z.of_nat _) (T1 _ _ _)] => rewrite set_row_T2 by (assumption || reflexivity) end
   | lazymatch X with context [ndim (T1 _ _ _)] => rewrite !ndim_T1 end
   | lazymatch X with context [ndim (T2 _ _ _ _)] => rewrite !ndim_T2 end
   | lazymatch X with context [size (T2 _ _ _ _) 1] => rewrite size_T2_1 end
@@ -154,6 +202,10 @@ Ltac fix_head X :=
   | lazymatch X with context [cpu (T2 _ _ _ _)] => rewrite !cpu_T2 end
   | lazymatch X with context [long (T1 _ _ _)] => rewrite !long_T1 end
   | lazymatch X with context [long (T2 _ _ _ _)] => rewrite !long_T2 end
+  | lazymatch X with context [get_item (T1 _ _ [_; _; _]) 1] => rewrite !get_item_row_1 end
+  | lazymatch X with context [get_item (T1 _ _ [_; _; _]) 2] => rewrite !get_item_row_2 end
+  | lazymatch X with context [fill_slice (T1 _ _ [_; _; _]) (Some 1%Z) None (-1)] => rewrite fill_slice_row end
+  | lazymatch X with context [set_item (T1 _ _ [_; _; _]) 2 _] => rewrite set_item_row_2 end
   | lazymatch X with context [q_cmp Lt (inject_Z _) (inject_Z _)] => rewrite !q_cmp_lt end
   | lazymatch X with context [q_cmp LtE (inject_Z _) (inject_Z _)] => rewrite !q_cmp_le end
   | lazymatch X with context [q_cmp Gt (inject_Z _) (inject_Z _)] => rewrite !q_cmp_gt end
@@ -161,14 +213,21 @@ Ltac fix_head X :=
   | lazymatch X with context [(Z.of_nat _ =? Z.of_nat _)%Z] => rewrite !of_nat_eqb end
   | lazymatch X with context [(0 <=? Z.of_nat _)%Z] => rewrite !leb_0_of_nat end
   | lazymatch X with context [Z.to_nat (Z.of_nat _)] => rewrite !Nat2Z.id end
-  | lazymatch X with context [(Z.of_nat (S _) =? 0)%Z] => rewrite !of_nat_S_eqb_0 end ].
+  | lazymatch X with context [(Z.of_nat (S _) =? 0)%Z] => rewrite !of_nat_S_eqb_0 end
+  | lazymatch X with context [Z.of_nat 0] => change (Z.of_nat 0) with 0%Z end
+  | lazymatch X with context [Z.of_nat 1] => change (Z.of_nat 1) with 1%Z end
+  | lazymatch X with context [Z.of_nat 2] => change (Z.of_nat 2) with 2%Z end
+  | lazymatch X with context [Z.of_nat 3] => change (Z.of_nat 3) with 3%Z end
+  | lazymatch X with context [Pos.to_nat 1] => change (Pos.to_nat 1) with 1%nat end
+  | lazymatch X with context [Pos.to_nat 2] => change (Pos.to_nat 2) with 2%nat end
+  | lazymatch X with context [Pos.to_nat 3] => change (Pos.to_nat 3) with 3%nat end ].
 
 Ltac zconsts :=
   change (Z.of_nat 3) with 3%Z; change (Z.of_nat 2) with 2%Z; change (Z.of_nat 1) with 1%Z; change (Z.of_nat 0) with 0%Z;
   change (Pos.to_nat 1) with 1%nat; change (Pos.to_nat 2) with 2%nat; change (Pos.to_nat 3) with 3%nat.
 
 (* one round: compute, then repair the redex in evaluation position *)
-Ltac hstep := progress (cbn; zconsts; try (match goal with |- ?L = _ => head_redex L ltac:(fun X => fix_head X) end)).
+Ltac hstep := progress (cbn; try (match goal with |- ?L = _ => head_redex L ltac:(fun X => fix_head X) end)).
 Ltac hrun := repeat hstep.
 
 Ltac name_stmt t k :=
@@ -176,24 +235,37 @@ Ltac name_stmt t k :=
   assert (H : {x : stmt | x = t}) by (exists t; reflexivity); destruct H as [x H]; k x H.
 
 Ltac exec1 :=
-  match goal with
-  | |- context [exec ?ext (SSeq ?a ?b) ?st] =>
-      name_stmt b ltac:(fun r Hr => rewrite (exec_seq_named ext a b st r Hr))
-  | |- context [exec ?ext (SIf ?c ?t ?f) ?st] =>
-      name_stmt t ltac:(fun bt Ht => name_stmt f ltac:(fun bf Hf => rewrite (exec_if_named ext c t f st bt bf Ht Hf)))
-  | |- context [exec ?ext (SAssign ?ts ?e) ?st] => rewrite (exec_assign ext ts e st)
-  | |- context [exec ?ext (SRaise ?x) ?st] => rewrite (exec_raise ext x st)
-  | |- context [exec ?ext SPass ?st] => rewrite (exec_pass ext st)
-  | |- context [exec ?ext (SExpr (ECall ?f ?a ?k)) ?st] => rewrite (exec_expr_call ext f a k st)
-  end.
+  match goal with |- ?L = _ => head_redex L ltac:(fun X =>
+    lazymatch X with
+    | exec ?ext (SSeq ?a ?b) ?st => name_stmt b ltac:(fun r Hr => rewrite (exec_seq_named ext a b st r Hr))
+    | exec ?ext (SIf ?c ?t ?f) ?st =>
+        name_stmt t ltac:(fun bt Ht => name_stmt f ltac:(fun bf Hf => rewrite (exec_if_named ext c t f st bt bf Ht Hf)))
+    | exec ?ext (SAssign ?ts ?e) ?st => rewrite (exec_assign ext ts e st)
+    | exec ?ext (SRaise ?x) ?st => rewrite (exec_raise ext x st)
+    | exec ?ext SPass ?st => rewrite (exec_pass ext st)
+    | exec ?ext (SExpr (ECall ?f ?a ?k)) ?st => rewrite (exec_expr_call ext f a k st)
+    | exec _ ?r _ => is_var r; subst r
+    end) end.
 (* a folded statement in evaluation position: unfold its name *)
 Ltac unfold_stmt :=
   match goal with
   | H : ?r = _ |- context [exec _ ?r _] => is_var r; subst r
   end.
 (* after a test is decided: expose the chosen branch *)
-Ltac pick := cbn [truthy negb andb orb]; unfold_stmt.
-Ltac xs := first [exec1 | unfold_stmt; exec1]; hrun; norm_state.
+Ltac pick := cbn [truthy negb andb orb].
+(* a test in evaluation position that an earlier case analysis decided: rewrite it *)
+Ltac decide_head :=
+  match goal with |- ?L = _ => head_redex L ltac:(fun X =>
+    lazymatch X with
+    | if ?b then _ else _ =>
+        repeat match goal with
+               | H : ?x = true |- _ => lazymatch b with context [x] => rewrite H end
+               | H : ?x = false |- _ => lazymatch b with context [x] => rewrite H end
+               end
+    end) end.
+Ltac settle := hrun; repeat (progress decide_head; hrun).
+Ltac xs := exec1; settle.
+Ltac run := settle; repeat xs.
 
 (* the variable store of the glue: parameters, torch, idx, the three state variables, the slots - in this order *)
 Definition mkvars (ids : list string) (fx : option Z) (idx nf r2d fdt fn t1 feat ali ref wb prefix dir_ prefix_ msg t2 T F Tp
@@ -220,13 +292,6 @@ Definition if_then (s : stmt) : stmt := match s with SIf _ t _ => t | _ => SPass
 Definition if_else (s : stmt) : stmt := match s with SIf _ _ f => f | _ => SPass end.
 Definition for_body (s : stmt) : stmt := match s with SFor _ _ b => b | _ => SPass end.
 
-Definition ali_vbody : stmt := Eval cbv in if_then (seq_nth 2 (if_then iv_ali)).
-Definition ali_cuda : stmt := Eval cbv in seq_nth 0 ali_vbody.
-Definition ali_long : stmt := Eval cbv in seq_nth 1 ali_vbody.
-Definition ali_ndim : stmt := Eval cbv in seq_nth 2 ali_vbody.
-Definition ali_size : stmt := Eval cbv in seq_nth 3 ali_vbody.
-Definition ali_crop : stmt := Eval cbv in seq_nth 4 ali_vbody.
-Definition ali_save : stmt := Eval cbv in seq_drop 5 ali_vbody.
 Ltac use L :=
   match goal with |- context [exec ?e ?s ?st] =>
     let H := fresh in eassert (H : exec e s st = _) by (apply L); rewrite H; clear H end.
@@ -235,7 +300,8 @@ Ltac usex L :=
     let H := fresh in let m := fresh "m" in
     (eassert (H : exists m, exec e s st = _) by (apply L)); destruct H as [m H]; rewrite H; clear H end.
 Ltac done_exc := cbn; eexists; split; reflexivity.
-Ltac nxt := cbn [bind then_]; unfold_stmt; exec1.
+Ltac xsc := match goal with |- context [exec ?ext (SSeq ?a ?b) ?st] => name_stmt b ltac:(fun r Hr => rewrite (exec_seq_named ext a b st r Hr)) end.
+Ltac nxt := cbn [bind then_]; unfold_stmt; match goal with |- context [exec ?ext (SSeq ?a ?b) ?st] => name_stmt b ltac:(fun r Hr => rewrite (exec_seq_named ext a b st r Hr)) end.
 
 Definition is_long (t : tens) : bool := (negb (t_cuda t) && Model.dtype_beq (t_dtype t) Model.DI64)%bool.
 Definition is_small (t : tens) : bool := (negb (t_cuda t) && Model.upcastable (t_dtype t))%bool.
@@ -243,168 +309,3 @@ Definition is_small (t : tens) : bool := (negb (t_cuda t) && Model.upcastable (t
 Lemma long_id : forall t, is_long t = true -> long t = t.
 Proof. intros [cu dt sh da]. unfold is_long. cbn. destruct cu, dt; cbn; try discriminate; reflexivity. Qed.
 
-Section Ali.
-  Variables (c : Model.cfg) (d : Model.dir) (ids : list string) (fx : option Z).
-  Variables (idx nf r2d fdt t1 feat ref prefix t2 F idx2 r tok start end_ : val) (fnv : string) (T : nat).
-  Local Notation ext := (ext12 (env_ds c d)).
-  Definition stA (dir_ prefix_ msg ali wb Tp : val) (evs : list event) : state :=
-    mkState (mkvars ids fx idx nf r2d fdt (VStr fnv) t1 feat ali ref wb prefix dir_ prefix_ msg t2 (VInt (Z.of_nat T)) F Tp
-                    idx2 r tok start end_) evs.
-
-  (* -- `if isinstance(ali, torch.Tensor) and ali.device.type == "cuda":` -- *)
-  Lemma ali_cuda_run : forall dir_ prefix_ msg t (wb : bool) Tp evs,
-    exists msg',
-    exec ext ali_cuda (stA dir_ prefix_ msg (enc12 t) (VBool wb) Tp evs)
-    = if (t_cuda t && negb (Model.is_some fx))%bool
-      then Exc "ValueError" (stA dir_ prefix_ msg' (enc12 t) (VBool wb) Tp evs)
-      else Ok CNormal (stA dir_ prefix_ msg' (enc12 (cpu t)) (VBool (wb || t_cuda t)) Tp evs).
-  Proof.
-    intros. unfold ali_cuda, stA, mkvars.
-    destruct t as [cu dt sh da]; cbn [t_cuda]. destruct cu; cbn [andb orb negb]; eexists.
-    - xs. pick. xs. xs. xs. destruct fx as [k|]; hrun.
-      + pick. xs. xs. xs. rewrite orb_true_r. reflexivity.
-      + pick. xs. reflexivity.
-    - xs. pick. xs. rewrite orb_false_r. reflexivity.
-  Qed.
-
-  (* -- `if not isinstance(ali, torch.LongTensor):` -- *)
-  Lemma ali_long_run : forall dir_ prefix_ msg t (wb : bool) Tp evs,
-    exists msg',
-    exec ext ali_long (stA dir_ prefix_ msg (enc12 t) (VBool wb) Tp evs)
-    = if (negb (is_long t) && negb (Model.is_some fx && is_small t))%bool
-      then Exc "ValueError" (stA dir_ prefix_ msg' (enc12 t) (VBool wb) Tp evs)
-      else Ok CNormal (stA dir_ prefix_ msg' (enc12 (long t)) (VBool (wb || negb (is_long t))) Tp evs).
-  Proof.
-    intros. unfold ali_long, stA, mkvars.
-    destruct (is_long t) eqn:EL; cbn [negb andb orb]; eexists.
-    - xs. unfold is_long in EL. rewrite EL. pick. xs. rewrite orb_false_r, (long_id t EL). reflexivity.
-    - xs. unfold is_long in EL. rewrite EL. pick. xs. xs. xs. unfold is_small. destruct fx as [k|]; hrun.
-      + destruct (negb (t_cuda t) && Model.upcastable (t_dtype t))%bool; cbn [negb andb Model.is_some].
-        * pick. xs. xs. xs. rewrite orb_true_r. reflexivity.
-        * pick. xs. reflexivity.
-      + pick. xs. reflexivity.
-  Qed.
-
-  (* -- `if ali.ndim != 1:` -- *)
-  Lemma ali_ndim_run : forall dir_ prefix_ msg t wb Tp evs,
-    exec ext ali_ndim (stA dir_ prefix_ msg (enc12 t) wb Tp evs)
-    = if (ndim t =? 1)%nat then Ok CNormal (stA dir_ prefix_ msg (enc12 t) wb Tp evs)
-      else Exc "ValueError" (stA dir_ prefix_ msg (enc12 t) wb Tp evs).
-  Proof.
-    intros. unfold ali_ndim, stA, mkvars.
-    xs. change 1%Z with (Z.of_nat 1). rewrite of_nat_eqb. destruct (ndim t =? 1)%nat.
-    - pick. xs. reflexivity.
-    - pick. xs. reflexivity.
-  Qed.
-
-  (* -- `Tp = ali.size(0)` -- *)
-  Lemma ali_size_run : forall dir_ prefix_ msg cu dt v wb Tp evs,
-    exec ext ali_size (stA dir_ prefix_ msg (enc12 (T1 cu dt v)) wb Tp evs)
-    = Ok CNormal (stA dir_ prefix_ msg (enc12 (T1 cu dt v)) wb (VInt (Z.of_nat (List.length v))) evs).
-  Proof.
-    intros. unfold ali_size, stA, mkvars. xs. reflexivity.
-  Qed.
-
-  (* -- `if Tp != T:` -- *)
-  Definition crop_ok (n : nat) : bool :=
-    ((n =? T)%nat
-     || match fx with
-        | Some k => (Z.of_nat T + k >=? Z.of_nat n)%Z && (Z.of_nat n >? Z.of_nat T)%Z
-        | None => false
-        end)%bool.
-
-  Lemma ali_crop_run : forall dir_ prefix_ msg cu dt v (wb : bool) evs,
-    exists msg',
-    exec ext ali_crop (stA dir_ prefix_ msg (enc12 (T1 cu dt v)) (VBool wb) (VInt (Z.of_nat (List.length v))) evs)
-    = if crop_ok (List.length v)
-      then Ok CNormal (stA dir_ prefix_ msg' (enc12 (T1 cu dt (if (List.length v =? T)%nat then v else List.firstn T v)))
-                           (VBool (wb || negb (List.length v =? T)%nat)) (VInt (Z.of_nat (List.length v))) evs)
-      else Exc "ValueError" (stA dir_ prefix_ msg' (enc12 (T1 cu dt v)) (VBool wb) (VInt (Z.of_nat (List.length v))) evs).
-  Proof.
-    intros. unfold ali_crop, stA, mkvars, crop_ok.
-    destruct (List.length v =? T)%nat eqn:EL; cbn [orb negb]; eexists.
-    - xs. rewrite EL. pick. xs. rewrite orb_false_r. reflexivity.
-    - xs. rewrite EL. pick. xs. xs. xs. destruct fx as [k|]; hrun.
-      + destruct (Z.of_nat T + k >=? Z.of_nat (List.length v))%Z; hrun; [destruct (Z.of_nat (List.length v) >? Z.of_nat T)%Z; cbn [andb]|].
-        * pick. xs. xs. rewrite slice0_T1_to. hrun. norm_state. xs. rewrite orb_true_r. reflexivity.
-        * pick. xs. reflexivity.
-        * pick. xs. reflexivity.
-      + pick. xs. reflexivity.
-  Qed.
-
-  Definition save_ev (t : tens) (dir_ : string) : event := ("torch.save", [enc12 t; VStr (dir_ ++ "/" ++ fnv)]).
-
-  (* -- `if write_back: torch.save(ali, os.path.join(dir_, fn)); write_back = False` -- *)
-  Lemma ali_save_run : forall dir_ prefix_ msg t (wb : bool) Tp evs,
-    exec ext ali_save (stA (VStr dir_) prefix_ msg (enc12 t) (VBool wb) Tp evs)
-    = Ok CNormal (stA (VStr dir_) prefix_ msg (enc12 t) (VBool false) Tp (if wb then evs ++ [save_ev t dir_] else evs)).
-  Proof.
-    intros. unfold ali_save, stA, mkvars, save_ev.
-    xs. destruct wb.
-    - pick. xs. xs. xs. reflexivity.
-    - pick. xs. reflexivity.
-  Qed.
-
-
-  Definition ali_wb (a : Model.ali) : bool :=
-    match Model.a_data a with
-    | Model.A1 v => (Model.a_cuda a || negb (Model.dtype_beq (Model.a_dtype a) Model.DI64) || negb (List.length v =? T)%nat)%bool
-    | _ => false
-    end.
-  Definition ali_shape_ok (a : Model.ali) : Prop :=
-    match Model.a_data a with Model.AN dims _ => List.length dims <> 1%nat | _ => True end.
-
-  Lemma ali_block_some : forall dir_ prefix_ msg a Tp evs, ali_shape_ok a ->
-    match Model.ali_part true fx T a with
-    | inl _ => exists st', exec ext iv_ali (stA dir_ prefix_ msg (enc12 (ali_tens a)) (VBool false) Tp evs) = Exc "ValueError" st'
-                           /\ events st' = evs
-    | inr a' => exists msg' Tp',
-        exec ext iv_ali (stA dir_ prefix_ msg (enc12 (ali_tens a)) (VBool false) Tp evs)
-        = Ok CNormal (stA (VStr "d/ali") (VStr "") msg' (enc12 (ali_tens a')) (VBool false) Tp'
-                          (if ali_wb a then evs ++ [save_ev (ali_tens a') "d/ali"] else evs))
-    end.
-  Proof.
-    intros dir_ prefix_ msg [cu dt data] Tp evs Hok. unfold ali_shape_ok in Hok. cbn [Model.a_data] in Hok.
-    (* the run up to the validate body, as an equation *)
-    assert (P : forall t, exec ext iv_ali (stA dir_ prefix_ msg (enc12 t) (VBool false) Tp evs)
-                = bind (exec ext ali_vbody (stA (VStr "d/ali") (VStr "") msg (enc12 t) (VBool false) Tp evs))
-                       (then_ ext (seq_drop 3 (if_then iv_ali)))).
-    { intros t. unfold iv_ali, stA, mkvars. xs. pick. xs. xs. xs. xs. xs. xs. pick. subst. reflexivity. }
-    unfold Model.ali_part, ali_wb. cbn [Model.a_cuda Model.a_dtype Model.a_data negb].
-    rewrite !P. clear P. unfold ali_vbody. unfold ali_tens. cbn [Model.a_cuda Model.a_dtype Model.a_data].
-    destruct data as [v|dims flat].
-    - (* 1-D *)
-      xs. usex ali_cuda_run. rewrite ?t_cuda_T1, ?cpu_T1.
-      destruct (cu && negb (Model.is_some fx))%bool eqn:E1; [done_exc|].
-      cbn [bind then_]. unfold_stmt. exec1. usex ali_long_run. unfold is_long, is_small. rewrite ?t_cuda_T1, ?t_dtype_T1, ?long_T1. cbn [negb andb].
-      destruct (negb (Model.dtype_beq dt Model.DI64) && negb (Model.is_some fx && Model.upcastable dt))%bool eqn:E2; [done_exc|].
-      cbn [bind then_]. unfold_stmt. exec1. use ali_ndim_run. rewrite ndim_T1. cbn [Nat.eqb].
-      cbn [bind then_]. unfold_stmt. exec1. use ali_size_run.
-      cbn [bind then_]. unfold_stmt. exec1. usex ali_crop_run. unfold crop_ok. rewrite of_nat_eqb.
-      assert (Fin : forall m' t' (wb : bool) Tp' evs',
-                exists msg'' Tp'',
-                bind (bind (Ok CNormal (stA (VStr "d/ali") (VStr "") m' (enc12 t') (VBool wb) Tp' evs')) (then_ ext s))
-                     (then_ ext (seq_drop 3 (if_then iv_ali)))
-                = Ok CNormal (stA (VStr "d/ali") (VStr "") msg'' (enc12 t') (VBool false) Tp''
-                                  (if wb then evs' ++ [save_ev t' "d/ali"] else evs'))).
-      { intros. cbn [bind then_]. unfold_stmt. use ali_save_run. cbn [bind then_ seq_drop if_then iv_ali].
-        unfold stA, mkvars. xs. pick. xs. do 2 eexists. reflexivity. }
-      destruct (List.length v =? T)%nat eqn:EL; cbn [orb negb].
-      + rewrite !orb_false_r. cbn [orb]. apply Fin.
-      + destruct fx as [k|]; [destruct ((Z.of_nat T + k >=? Z.of_nat (List.length v))%Z && (Z.of_nat (List.length v) >? Z.of_nat T)%Z)%bool|].
-        * rewrite !orb_true_r. cbn [orb]. apply Fin.
-        * done_exc.
-        * done_exc.
-    - (* not 1-D *)
-      xs. usex ali_cuda_run. cbn [t_cuda].
-      destruct (cu && negb (Model.is_some fx))%bool eqn:E1; [done_exc|].
-      cbn [bind then_]. unfold_stmt. exec1. usex ali_long_run. unfold is_long, is_small, cpu. cbn [t_cuda t_dtype negb andb].
-      destruct (negb (Model.dtype_beq dt Model.DI64) && negb (Model.is_some fx && Model.upcastable dt))%bool eqn:E2; [done_exc|].
-      cbn [bind then_]. unfold_stmt. exec1. use ali_ndim_run. unfold ndim, long. cbn [t_shape].
-      destruct (Nat.eqb_spec (List.length dims) 1); [contradiction|]. done_exc.
-  Qed.
-
-  Lemma ali_block_none : forall dir_ prefix_ msg wb Tp evs,
-    exec ext iv_ali (stA dir_ prefix_ msg VNone wb Tp evs) = Ok CNormal (stA dir_ prefix_ msg VNone wb Tp evs).
-  Proof. intros. unfold iv_ali, stA, mkvars. xs. pick. xs. reflexivity. Qed.
-End Ali.
